@@ -19,6 +19,7 @@ import (
 
 type genRec struct {
 	Pid int                 `json:"pid"`
+	O   []string            `json:"o"`
 	P   Pat                 `json:"p"`
 	Res [][]json.RawMessage `json:"res"` // Res[input][start] = [] | [idx,len,caps]
 }
@@ -83,12 +84,9 @@ func init() {
 	commands["replay-find"] = func(args []string) int {
 		fs := flag.NewFlagSet("replay-find", flag.ExitOnError)
 		in := fs.String("i", "-", "TLC output")
-		opts := fs.String("o", "", "option letters")
 		dia := fs.String("dia", "net", "dialect")
 		rtl := fs.Bool("rtl", false, "RightToLeft")
 		fs.Parse(args)
-		o := letters(*opts)
-
 		f := os.Stdin
 		if *in != "-" {
 			var err error
@@ -115,6 +113,10 @@ func init() {
 				if err := json.Unmarshal([]byte(payload), &g); err != nil {
 					fmt.Fprintln(os.Stderr, "bad P record:", err)
 					os.Exit(2)
+				}
+				o := g.O
+				if o == nil {
+					o = []string{}
 				}
 				text := PrintPat(g.P, PrintOpts{X: has(o, "x"), RE2: *dia == "re2", XNoise: g.Pid % 3})
 				re, err := compile(text, optBits(o, *dia, *rtl))
